@@ -93,6 +93,30 @@ def cfg_env(cfg):
     fl = []
     tg = []
     cl = []
+    for o in cfg.get("opts") or []:
+        # one option per entry, in the order given: -F/-N go to UFTRACE_FILTER, -T to UFTRACE_TRIGGER, -C to UFTRACE_CALLER
+        ks = o["ks"]
+        if len(ks) == 1:
+            p = pat(ks[0])
+        elif pt == "regex":
+            p = "^f(%s)$" % "|".join(str(k) for k in ks)
+        elif pt == "glob":
+            p = "f[%s]" % "".join(str(k) for k in ks)        # single-digit function numbers only
+        else:
+            raise ValueError("a simple pattern matches one function")
+        kind = o["kind"]
+        if kind in ("F", "N"):
+            fl.append(("!" if kind == "N" else "") + p)
+        elif kind == "C":
+            cl.append(p)
+        else:
+            acts = []
+            for k, v in o["acts"]:
+                acts.append({"filter": lambda: "filter" if v else "notrace", "depth": lambda: "depth=%d" % v,
+                             "time": lambda: "time=" + fmt_time(v), "size": lambda: "size=%d" % v,
+                             "trace_on": lambda: "trace_on", "trace_off": lambda: "trace_off", "trace": lambda: "trace",
+                             "caller": lambda: "caller", "finish": lambda: "finish"}[k]())
+            tg.append(p + "@" + ",".join(acts))
     for k, tr in sorted(cfg.get("trig", {}).items()):
         acts = []
         if tr.get("filter") is not None:
@@ -113,6 +137,8 @@ def cfg_env(cfg):
             acts.append("trace_off")
         if tr.get("trace"):
             acts.append("trace")
+        if tr.get("finish"):
+            acts.append("finish")
         if acts:
             tg.append(pat(k) + "@" + ",".join(acts))
         if tr.get("caller"):
@@ -129,6 +155,8 @@ def cfg_env(cfg):
         env["UFTRACE_THRESHOLD"] = cfg["threshold"]
     if cfg.get("max_stack") is not None:
         env["UFTRACE_MAX_STACK"] = cfg["max_stack"]
+    if cfg.get("disable"):
+        env["UFTRACE_TRACE_OFF"] = "1"                     # record --disable / --trace=off
     if cfg.get("min_size"):
         env["UFTRACE_MIN_SIZE"] = cfg["min_size"]          # record -Z N
     return env
